@@ -49,39 +49,71 @@ def M(pid, name, functions, bounds, tiers=("quick", "thorough"), **kw):
 PROPERTY_ASSUMPTIONS["C10"] = [
     "no oracle, no stub: the decoders run exactly as compiled; a counterexample replays natively bit for bit",
     "the peer-facing entry for ghost-chain payloads is Message::deserialize (tag 10); GhostChainSync::deserialize called directly on unchecked bytes is outside the claim",
-    "lengths above the listed ones are outside the claim (quick: boundary lengths derived from the format; thorough: more lengths)",
+    "lengths other than the listed ones are outside the claim (quick: the cheap decoders over all lengths up to their size, and boundary lengths of Message tags; thorough: adds Transaction / Block / HandshakeResponse at the boundary lengths derived from the format, each 2-8 minutes of CBMC because every `?` on io::Error unrolls its recursive drop glue)",
 ]
+MEMCMP = ["--unwindset", "memcmp.0:66"]
 TX = ["saito_core::core::consensus::transaction::Transaction::deserialize_from_net", "saito_core::core::consensus::slip::Slip::deserialize_from_net", "saito_core::core::consensus::hop::Hop::deserialize_from_net"]
-for n, tiers in [(93, "qt"), (94, "qt"), (151, "qt"), (152, "qt"), (153, "qt"), (211, "t"), (223, "qt"), (282, "t")]:
+Q, T, QT = ("quick", "thorough"), ("thorough",), ("quick", "thorough")
+for n, tiers in [(93, QT), (94, T), (151, T), (152, T), (153, T), (211, T), (223, T), (282, T)]:
     K("C10", "c10_tx_len%03d" % n, "c10", TX, "buffer of exactly %d bytes, every byte symbolic (all count fields included); allocation bound asserted on success" % n,
-      tiers=("quick", "thorough") if "q" in tiers else ("thorough",), covers=2 if n in (93, 152, 153, 211, 223, 282) else 1)
-K("C10", "c10_tx_short", "c10", TX[:1], "every buffer of length 0..=92, symbolic content: always Err")
-K("C10", "c10_slip_total", "c10", TX[1:2], "every buffer of length 0..=60", covers=2)
-K("C10", "c10_hop_total", "c10", TX[2:3], "every buffer of length 0..=131")
-K("C10", "c10_utxokey_total", "c10", ["saito_core::core::consensus::slip::Slip::parse_slip_from_utxokey"], "every 59-byte key", covers=2)
-K("C10", "c10_version_total", "c10", ["<Version as Serialize>::deserialize"], "every buffer of length 0..=6", covers=2)
-K("C10", "c10_blockchain_request_total", "c10", ["<BlockchainRequest as Serialize>::deserialize"], "every buffer of length 0..=74", covers=2)
-K("C10", "c10_challenge_total", "c10", ["<HandshakeChallenge as Serialize>::deserialize"], "every buffer of length 0..=34", covers=2)
+      tiers=tiers, covers=2 if n in (93, 152, 153, 211, 223, 282) else 1, cbmc_args=MEMCMP, timeout=1500)
+K("C10", "c10_tx_short", "c10", TX[:1], "every buffer of length 0..=92, symbolic content: always Err", tiers=T, cbmc_args=MEMCMP, timeout=1500)
+K("C10", "c10_tx_counts_152", "c10", TX, "152-byte buffer; the four count fields concrete from a table (3 exact layouts x 4 fields x {+1,-1,255,256,u32::MAX}), other 136 bytes symbolic", tiers=T, cbmc_args=MEMCMP, timeout=2400)
+K("C10", "c10_slip_total", "c10", TX[1:2], "every buffer of length 0..=60", covers=2, cbmc_args=MEMCMP)
+K("C10", "c10_hop_total", "c10", TX[2:3], "every buffer of length 0..=131", cbmc_args=MEMCMP)
+K("C10", "c10_utxokey_total", "c10", ["saito_core::core::consensus::slip::Slip::parse_slip_from_utxokey"], "every 59-byte key", covers=2, cbmc_args=MEMCMP)
+K("C10", "c10_version_total", "c10", ["<Version as Serialize>::deserialize"], "every buffer of length 0..=6", covers=2, cbmc_args=MEMCMP)
+K("C10", "c10_blockchain_request_total", "c10", ["<BlockchainRequest as Serialize>::deserialize"], "every buffer of length 0..=74", covers=2, cbmc_args=MEMCMP)
+K("C10", "c10_challenge_total", "c10", ["<HandshakeChallenge as Serialize>::deserialize"], "every buffer of length 0..=34", covers=2, cbmc_args=MEMCMP)
 MSG = ["saito_core::core::msg::message::Message::deserialize"]
-for tag, n, tiers in [(1, 32, "qt"), (5, 72, "qt"), (6, 40, "qt"), (7, 0, "qt"), (8, 0, "t"), (10, 36, "qt"), (10, 37, "t"), (10, 117, "qt"), (10, 118, "qt"), (10, 119, "t"),
-                      (11, 72, "qt"), (12, 4, "qt"), (13, 5, "t"), (14, 4, "t"), (15, 33, "qt"), (15, 66, "t")]:
+for tag, n, tiers in [(1, 32, QT), (5, 72, T), (6, 40, QT), (7, 0, T), (8, 0, T), (10, 36, QT), (10, 37, T), (10, 117, T), (10, 118, T), (10, 119, T),
+                      (11, 72, T), (12, 4, QT), (13, 5, T), (14, 4, T), (15, 33, QT), (15, 66, T)]:
     K("C10", "c10_msg_t%02d_len%02d" % (tag, n), "c10", MSG + (["saito_core::core::msg::ghost_chain_sync::GhostChainSync::deserialize"] if tag == 10 else []),
-      "tag %d followed by exactly %d symbolic bytes; decoded message has the tag's type" % (tag, n),
-      tiers=("quick", "thorough") if "q" in tiers else ("thorough",))
-K("C10", "c10_msg_short_any_tag", "c10", MSG, "every tag byte except 9, payload of every length 0..=35, symbolic content", covers=3)
-K("C10", "c10_msg_empty", "c10", MSG, "the empty buffer")
+      "tag %d followed by exactly %d symbolic bytes; decoded message has the tag's type" % (tag, n), tiers=tiers, cbmc_args=MEMCMP, timeout=1500)
+K("C10", "c10_msg_short_any_tag", "c10", MSG, "every tag byte except 9, payload of every length 0..=35, symbolic content", covers=3, tiers=T, cbmc_args=MEMCMP, timeout=2400)
+K("C10", "c10_msg_empty", "c10", MSG, "the empty buffer", cbmc_args=MEMCMP)
 HSR = ["<HandshakeResponse as Serialize>::deserialize", "<Version as Serialize>::deserialize", "PeerService::deserialize_services"]
-for n, tiers in [(141, "qt"), (142, "qt"), (143, "qt"), (145, "t")]:
-    K("C10", "c10_hsr_len%d" % n, "c10", HSR, "buffer of exactly %d symbolic bytes (url length field symbolic)" % n,
-      tiers=("quick", "thorough") if "q" in tiers else ("thorough",), covers=0 if n == 141 else 1)
+for n, tiers in [(141, QT), (142, T), (143, T)]:
+    K("C10", "c10_hsr_len%d" % n, "c10", HSR, "buffer of exactly %d symbolic bytes (url length field symbolic)" % n, tiers=tiers, covers=1 if n == 141 else 2, cbmc_args=MEMCMP, timeout=2400)
+K("C10", "c10_hsr_urlfield_146", "c10", HSR, "146-byte buffer, url length field concrete in {4,5,146,147,u32::MAX}, other bytes symbolic", tiers=T, cbmc_args=MEMCMP, timeout=2400)
 BLK = ["saito_core::core::consensus::block::Block::deserialize_from_net"] + TX
-for n, tiers in [(388, "qt"), (389, "qt"), (404, "qt"), (405, "t"), (481, "t"), (482, "qt"), (483, "t")]:
+for n, tiers in [(388, QT), (389, QT), (404, T), (405, T), (482, T)]:
     K("C10", "c10_block_len%d" % n, "c10", BLK, "buffer of exactly %d symbolic bytes (transaction count and every per-transaction count symbolic)" % n,
-      tiers=("quick", "thorough") if "q" in tiers else ("thorough",), covers=0 if n in (388, 404, 405, 481) else 1)
-K("C10", "c10_gt_len97", "c10", ["saito_core::core::consensus::golden_ticket::GoldenTicket::deserialize_from_net"], "every 97-byte payload")
+      tiers=tiers, covers=1, cbmc_args=MEMCMP, timeout=2400)
+K("C10", "c10_gt_len97", "c10", ["saito_core::core::consensus::golden_ticket::GoldenTicket::deserialize_from_net"], "every 97-byte payload", cbmc_args=MEMCMP)
 K("C10", "c10_gt_anylen_witness", "c10", ["saito_core::core::consensus::golden_ticket::GoldenTicket::deserialize_from_net"], "every payload of length 0..=98",
-  expect_fail="c10_gt_anylen_witness", covers=0)
-K("C10", "c10_wallet_len65", "c10", ["saito_core::core::consensus::wallet::Wallet::deserialize_from_disk"], "every file of length 65..=70")
+  expect_fail="c10_gt_anylen_witness", covers=0, cbmc_args=MEMCMP)
+K("C10", "c10_wallet_len65", "c10", ["saito_core::core::consensus::wallet::Wallet::deserialize_from_disk"], "every file of length 65..=70", cbmc_args=MEMCMP)
 K("C10", "c10_wallet_short_witness", "c10", ["saito_core::core::consensus::wallet::Wallet::deserialize_from_disk"], "every file of length 0..=64",
-  expect_fail="c10_wallet_short_witness", covers=0)
-K("C10", "c10_services_len4", "c10", ["saito_core::core::consensus::peers::peer_service::PeerService::deserialize_services"], "every byte string of length 0..=4", covers=2)
+  expect_fail="c10_wallet_short_witness", covers=0, cbmc_args=MEMCMP)
+
+# ============================================================================== C03
+PROPERTY_ASSUMPTIONS["C03"] = [
+    "inductive steps only: each obligation starts from an arbitrary pre-state inside its size bound and performs one operation; the composition over block trees and delivery orders (Blockchain::add_block histories) is outside the claim",
+    "hashes are drawn from a 256-member family (one symbolic byte, replicated); container sizes are concrete per harness (solver cost grows ~10x per extra element), contents symbolic",
+]
+RI = "saito_core::core::consensus::ringitem::RingItem::"
+BR = "saito_core::core::consensus::blockring::BlockRing::"
+M34 = ["--unwindset", "memcmp.0:34"]
+for k_, tiers in [(1, QT), (2, QT), (3, T)]:
+    K("C03", "c03_ringitem_delete_k%d" % k_, "c03", [RI + "delete_block", RI + "add_block"], "RingItem with exactly %d entries (symbolic ids and hash byte, duplicates allowed), every lc_pos in {None, Some(i<k)}, every (id,hash) to delete" % k_, covers=2, cbmc_args=M34, tiers=tiers, timeout=1500)
+K("C03", "c03_ringitem_reorg", "c03", [RI + "on_chain_reorganization"], "RingItem with 3 entries, every hash byte, lc in {true,false}", covers=2, cbmc_args=M34)
+RING = "ring of 4 slots (genesis_period 2): slot of id holds 2 entries (sibling or next lap), neighbours 1 entry each; id in {1, 4} (4 wraps the ring), concrete per harness; every hash byte, every per-slot designation"
+for id_ in (1, 4):
+  K("C03", "c03_blockring_reorg_true_id%d" % id_, "c03", [BR + "on_chain_reorganization", BR + "get_longest_chain_block_hash_at_block_id", BR + "get_latest_block_hash", BR + "get_latest_block_id"], RING, cbmc_args=M34)
+for id_ in (1, 4):
+  K("C03", "c03_blockring_reorg_false_id%d" % id_, "c03", [BR + "on_chain_reorganization", BR + "get_latest_block_id"], RING + "; tip pointer at the slot / at the next slot / unknown", covers=2, cbmc_args=M34)
+for id_ in (1, 4):
+  K("C03", "c03_blockring_delete_id%d" % id_, "c03", [BR + "delete_block", RI + "delete_block"], RING + "; delete entry 0, entry 1 or an absent hash", covers=2, cbmc_args=M34)
+TXW = ["saito_core::core::consensus::transaction::Transaction::on_chain_reorganization", "saito_core::core::consensus::slip::Slip::on_chain_reorganization", "saito_core::core::consensus::slip::Slip::get_utxoset_key"]
+for a_, b_, tiers in [(1, 1, QT), (2, 1, T), (1, 2, T)]:
+    K("C03", "c03_tx_wind_unwind_%dx%d" % (a_, b_), "c03", TXW, "%d input(s), %d output(s), symbolic amounts (0 included) / owner byte / slip type in {Normal, ATR}; utxoset = inputs + one unrelated entry with arbitrary flag" % (a_, b_), cbmc_args=["--unwindset", "memcmp.0:66"], tiers=tiers, timeout=1800)
+
+# ============================================================================== C08
+PROPERTY_ASSUMPTIONS["C08"] = [
+    "engine M: MIR of /repo's current source (hooks guard off), integers as bit-vectors of their Rust width; hop keys and fee fully symbolic; number of hops concrete per query",
+    "logging is off (log level checks return false); `<[u8;33] as PartialEq>::ne` is byte-wise inequality",
+    "fee-transaction construction and the payout lottery over real hashes (inside Block::generate_consensus_values) are outside the claim",
+]
+M("C08", "c08_total_work", ["saito_core::core::consensus::transaction::Transaction::generate_total_work"],
+  "routing paths of 0..=5 hops (thorough: 0..=8), each hop's from/to keys 33 symbolic bytes, fee any u64, creator key symbolic; one solver query per returning path and clause")
